@@ -85,6 +85,19 @@ def norm(tokens, dlevel: int, listform: bool):
     return out
 
 
+def _fix_titles(dicts) -> None:
+    for t in dicts or []:
+        at = t.get("attrs")
+        if isinstance(at, dict) and isinstance(at.get("title"), str):
+            at["title"] = re.sub(r"\n +", "\n", at["title"])
+        elif isinstance(at, list):
+            for pair in at:
+                if isinstance(pair, list) and len(pair) == 2 and pair[0] == "title" and isinstance(pair[1], str):
+                    pair[1] = re.sub(r"\n +", "\n", pair[1])
+        if t.get("children"):
+            _fix_titles(t["children"])
+
+
 def _refs(env, listform: bool = False):
     refs, dups = env.get("references", {}), env.get("duplicate_refs", [])
     if listform:
@@ -161,6 +174,10 @@ def check(case) -> Res:
             a = norm(tl[2:-2], 2, True)
             b = norm(t0, 0, True)
             lazy_ok = any(t.type in ("blockquote_open", "bullet_list_open", "ordered_list_open") for t in t0)
+            if lazy_ok:
+                # the same exemption reaches link/image titles through multi-line titles of definitions (see _refs)
+                _fix_titles(a)
+                _fix_titles(b)
             for x, y in zip(a, b):
                 if lazy_ok and x["type"] == "inline" and x["content"] != y["content"]:
                     # lazy-continuation indentation differs: compare content modulo it, not children
